@@ -9,7 +9,9 @@ E  tables   one amount-like column (Amount, Position or Inventory): every column
             more / fewer digits than the display precision, multi-lot inventories, lots that cancel, the empty
             inventory}, in three layouts: alone, between a plain int and a plain str column, before a plain int
             column; two (quick) / two and three (thorough) amount-like columns of every datatype combination with
-            plain columns in between, 0..2 rows over reduced alphabets.  Each table without a formatter and with
+            plain columns in between, 0..2 rows over reduced alphabets.  Each table without a formatter, with the default
+            formatter of a second ledger whose most common and maximum digit counts differ, with that ledger's
+            formatter built with Precision.MAXIMUM, and with
             the DisplayFormatter of a loaded ledger (``options['dcontext'].build()``, as ``run_query`` does).
 O  from the statement:
    (a) same number of rows; (b) the output columns are, in order, for a plain input column the same
@@ -43,7 +45,8 @@ ASSUMPTIONS = [
     'quantised = exactly the display precision\'s number of fractional digits and within half a unit of the last place of the sum (rounding rule not specified); '
     'the sum over lots is quantised, not the lots',
     'without a formatter cells are compared numerically (trailing zeros are not compared)',
-    'display precisions are those of the loaded ledger (USD 2, HOOL 3, EUR 0 fractional digits); currencies unknown to the formatter are outside',
+    'the precision a formatter quantises to is the one it was BUILT with: build() = most common digits of the ledger (USD 2, HOOL 3, EUR 0), '
+    'build(precision=Precision.MAXIMUM) = the most digits seen (second ledger: USD 4, HOOL 5, EUR 1 against 2 / 3 / 0 most common); currencies unknown to the formatter are outside',
     'plain columns must come back as the identical objects / equal values of the same type; the input description and rows are not checked for mutation',
 ]
 
@@ -68,9 +71,9 @@ def alphabets(seed):
     o2 = _rot(['-2', '-3', '-11'], seed)
     c3, c4 = C('3.00', 'USD'), C('4.00', 'USD')
     full = {
-        'amount': [None, A(o1, 'USD'), A('3.14159', 'USD'), A('0', 'USD'), A(o2, 'EUR'), A('1.123', 'HOOL'), A('-0.0004', 'HOOL'), A('0.50', 'EUR')],
+        'amount': [None, A(o1, 'USD'), A('3.14159', 'USD'), A('-0.1234', 'USD'), A('0', 'USD'), A(o2, 'EUR'), A('1.123', 'HOOL'), A('-0.0004', 'HOOL'), A('0.50', 'EUR')],
         'position': [None, P('1.123', 'HOOL', C('2.50', 'USD', label='lbl')), P('-3', 'USD'), P('0', 'EUR'), P('2', 'HOOL', c3), P('3.14159', 'USD'),
-                     P(o2, 'EUR')],
+                     P(o2, 'EUR'), P('-0.1234', 'USD')],
         'inventory': [None, I(), I(P(o1, 'USD')), I(P('1', 'USD'), P('2.5', 'HOOL', c3)),
                       I(P(o2, 'EUR'), P('2', 'HOOL', c3), P('1', 'HOOL', c4)),              # two lots of one currency
                       I(P('1', 'HOOL', c3), P('-1', 'HOOL', c4)),                           # lots that cancel
@@ -120,15 +123,19 @@ def lots(v):
     return [(p.units.currency, p.units.number) for p in v.get_positions()]
 
 
-def quantised_ok(cell, total, cur):
-    p = R.PRECISION[cur]
+def quantised_ok(cell, total, p):
     return cell.as_tuple().exponent == -p and abs(cell - total) * 2 <= D(1).scaleb(-p)
 
 
-def check(cols, rows, use_formatter, stats):
-    """-> [(locus, message)]"""
+def fmt_kind(fmt):
+    """formatter kind of a case (older replay files hold a boolean)"""
+    return {True: 'default', False: 'none'}.get(fmt, fmt)
+
+
+def check(cols, rows, fmt, stats):
+    """fmt: one of R.FORMATTER_KINDS.  -> [(locus, message)]"""
     desc = [Column(n, R.DTYPES[t]) for n, t in cols]
-    dformat = R.display_context().build() if use_formatter else None
+    dformat, prec = R.formatter(fmt_kind(fmt))
     try:
         ocols, orows = numberify_results(desc, rows, dformat)
     except Exception as e:    # noqa: BLE001 - any crash is a finding
@@ -214,16 +221,16 @@ def check(cols, rows, use_formatter, stats):
                     ok = (cell == total) if cell is not None else (total == 0)
                     exp = f'{total}'
                 else:
-                    if total.as_tuple().exponent != -R.PRECISION[cur]:
+                    if total.as_tuple().exponent != -prec[cur]:
                         stats['cells_requantised'] += 1
                     if cell is None:
-                        ok = abs(total) * 2 <= D(1).scaleb(-R.PRECISION[cur])
+                        ok = abs(total) * 2 <= D(1).scaleb(-prec[cur])
                     else:
-                        ok = quantised_ok(cell, total, cur)
-                    exp = f'{total} at {R.PRECISION[cur]} fractional digits'
+                        ok = quantised_ok(cell, total, prec[cur])
+                    exp = f'{total} at {prec[cur]} fractional digits'
                 if not ok:
                     # one locus for a wrong number (with or without formatter), another for a right number at the wrong precision
-                    near = cell is not None and dformat is not None and abs(cell - total) * 2 <= D(1).scaleb(-R.PRECISION[cur])
+                    near = cell is not None and dformat is not None and abs(cell - total) * 2 <= D(1).scaleb(-prec[cur])
                     locus = 'cell-quantised' if near else 'cell-value'
                     probs.append((f'{locus}:{t}', f'row {i} {ocols[kk].name!r}: {cell!r}, expected {exp} (units of {cur} in {R.show(values[i])})'))
     if k != len(ocols):
@@ -234,15 +241,15 @@ def check(cols, rows, use_formatter, stats):
 def describe(cols, rows, fmt):
     c = ', '.join(f'{n}:{t}' for n, t in cols)
     rws = '; '.join('(' + ', '.join(R.show(v) for v in r) + ')' for r in rows)
-    return f'columns [{c}] rows [{rws}] formatter={"yes" if fmt else "no"}'
+    return f'columns [{c}] rows [{rws}] formatter={fmt_kind(fmt)}'
 
 
 def make_case(cols, rows, fmt):
-    return {'columns': [list(c) for c in cols], 'rows': [[R.enc(v) for v in r] for r in rows], 'formatter': bool(fmt)}
+    return {'columns': [list(c) for c in cols], 'rows': [[R.enc(v) for v in r] for r in rows], 'formatter': fmt_kind(fmt)}
 
 
 def size_key(case):
-    return (len(case['rows']), len(case['columns']), len(repr(case['rows'])), case['formatter'])
+    return (len(case['rows']), len(case['columns']), len(repr(case['rows'])), R.FORMATTER_KINDS.index(fmt_kind(case['formatter'])))
 
 
 def record(acc, fp, what, case):
@@ -270,8 +277,9 @@ def shard(shard_no, nshards, seed, thorough):
         acc.count('tables')
         if any(v is not None and lots(v) for r in rows for v, (_, t) in zip(r, cols) if t in AMOUNTLIKE):
             acc.count('tables_with_units')
-        for fmt in (False, True):
+        for fmt in R.FORMATTER_KINDS:
             acc.count('cases')
+            acc.count('cases_formatter_' + fmt)
             for locus, msg in check(cols, rows, fmt, st):
                 fp = locus if '@' in locus else f'numberify:{locus}'
                 record(acc, fp, f'{msg} -- {describe(cols, rows, fmt)}', make_case(cols, rows, fmt))
@@ -370,11 +378,11 @@ def run(ctx):
         'traces_validated_against_impl': n['completed'],
         'evaluations': n['cells'] + n['plain_cells'],
         'distinct_nontrivial': n['tables_with_units'],
-        'rule': 'a case is one (table, formatter yes/no); tables are enumerated completely: one amount-like column of every datatype, every column of '
+        'rule': 'a case is one (table, formatter: none / default build() / build() and build(precision=MAXIMUM) over a ledger whose common and maximum digits differ); tables are enumerated completely: one amount-like column of every datatype, every column of '
                 '0..N cells over the full alphabet in 3 layouts, and every combination of 2 (thorough: and 3) amount-like datatypes with 0..2 rows over '
                 'the reduced alphabets; distinct & non-trivial = distinct tables holding at least one lot; evaluations = output cells compared',
         'exhaustive': True,
-        'bound': f'one amount-like column: <= {4 if ctx.thorough else 3} cells; {"2 and 3" if ctx.thorough else "2"} amount-like columns: <= 2 rows; with and without formatter',
+        'bound': f'one amount-like column: <= {4 if ctx.thorough else 3} cells; {"2 and 3" if ctx.thorough else "2"} amount-like columns: <= 2 rows; without formatter and with 3 formatters',
         'tables': n['tables'], 'calls': n['cases'], 'calls_completed': n['completed'], 'calls_raising': n['cases'] - n['completed'],
         'plain_columns_compared': n['plain_columns'], 'plain_cells_compared': n['plain_cells'],
         'amount_like_columns_converted': n['converted_columns'], 'currency_columns_produced': n['currency_columns'],
@@ -386,7 +394,9 @@ def run(ctx):
         'violating_cases_by_fingerprint': {k[3:]: v for k, v in sorted(n.items()) if k.startswith('fp ')},
         'alphabet': {t: [R.show(v) for v in full[t]] for t in AMOUNTLIKE},
         'alphabet_multi_column': {t: [R.show(v) for v in reduced[t]] for t in AMOUNTLIKE},
-        'display_precision': {c: R.PRECISION[c] for c in ('USD', 'HOOL', 'EUR')},
+        'display_precision': {'default': {c: R.PRECISION[c] for c in ('USD', 'HOOL', 'EUR')}, 'mixed-common': R.PRECISION_MIXED_COMMON,
+                              'mixed-maximum': R.PRECISION_MIXED_MAXIMUM},
+        'calls_by_formatter': {k: n['cases_formatter_' + k] for k in R.FORMATTER_KINDS},
         'samples': acc.samples,
     }
     nrq, vrq = check_run_query()
